@@ -67,6 +67,14 @@ def hazard_pointer_rules(ctx):
     present(ctx, "HP.block-init", CB + "initialize", {"k": "call", "field": "number_of_active_hps", "op": "fetch_add"}, label="count+")
     present(ctx, "HP.block-init", CB + "abandon", {"k": "call", "field": "number_of_active_hps", "op": "fetch_sub"}, label="count-")
     present(ctx, "HP.block-init", CB + "abandon", call("entry::abandon"), label="entry-abandon")
+    # the free list of an adopted block is rebuilt over ALL blocks of the dynamic strategy
+    DB = R + "detail::dynamic_hp_thread_control_block::"
+    present(ctx, "HP.block-init", DB + "initialize_next_block", call("initialize_block"), label="rebuilds-first-extra-block",
+            why="an adopted control block keeps the previous owner's stale slot links in its dynamically allocated blocks")
+    present(ctx, "HP.block-init", DB + "hazard_pointer_block::initialize_next_block", call("initialize_block"), label="rebuilds-following-blocks",
+            why="every dynamically allocated block must be re-linked, otherwise the rebuilt free list loops back into slots that are handed out")
+    present(ctx, "HP.block-init", CB + "initialize_block", call("initialize_next_block"), label="chains-to-next-block")
+    present(ctx, "HP.block-init", CB + "initialize", call("initialize_block"), label="initialize-rebuilds")
     # C18.c exhaustion is reported, slots are recycled
     guarded(ctx, "HP.slots", CB + "alloc_hazard_pointer", call("need_more_hps"), {"k": "bin", "expr_re": r"^\(result == nullptr\)$", "desc": "result == nullptr"}, True,
             label="need_more|null")
@@ -186,6 +194,27 @@ def hazard_eras_rules(ctx):
     present(ctx, "HE.block-init", CB + "initialize", {"k": "call", "field": "number_of_active_hes", "op": "fetch_add"}, label="count+")
     present(ctx, "HE.block-init", CB + "abandon", {"k": "call", "field": "number_of_active_hes", "op": "fetch_sub"}, label="count-")
     present(ctx, "HE.block-init", CB + "abandon", call("entry::abandon"), label="entry-abandon")
+    DB = R + "detail::dynamic_he_thread_control_block::"
+    present(ctx, "HE.block-init", DB + "initialize_next_block", call("initialize_block"), label="rebuilds-first-extra-block")
+    present(ctx, "HE.block-init", DB + "hazard_eras_block::initialize_next_block", call("initialize_block"), label="rebuilds-following-blocks")
+    present(ctx, "HE.block-init", CB + "initialize_block", call("initialize_next_block"), label="chains-to-next-block")
+    present(ctx, "HE.block-init", CB + "initialize", call("initialize_block"), label="initialize-rebuilds")
+    # the sharing cache (last_hazard_era, last_era) is one datum: it is updated only after the last call that can throw
+    for fn in flow._shapes(ctx, CB + "alloc_hazard_era"):
+        thr = flow.find(fn, call("need_more_hes"))
+        asg = [e for b, i, e, n in fn.events() if n["k"] == "bin" and n["op"] == "=" and fn.field_of(fn.kids(e)[0]).split("::")[-1] in ("last_era", "last_hazard_era")]
+        inst = CB + "alloc_hazard_era#cache-updated-after-throwing-call"
+        names = {fn.field_of(fn.kids(e)[0]).split("::")[-1] for e in asg}
+        ok = bool(thr) and names == {"last_era", "last_hazard_era"} and not any(fn.event_reaches(a, t) for a in asg for t in thr)
+        ctx.check(ok, "HE.exception-safety", inst, "last_era / last_hazard_era are assigned together after need_more_hes()",
+                  "the era-sharing cache (last_hazard_era, last_era) is modified before need_more_hes(), which throws when the static pool is exhausted: after the "
+                  "exception last_era names the new era while last_hazard_era still publishes an older one, and later allocations share a slot that does not protect them",
+                  fn.where(asg[0]) if asg else fn.where(), fn=fn)
+        # and they are updated on the same paths
+        for a in asg:
+            others = [x for x in asg if fn.field_of(fn.kids(x)[0]) != fn.field_of(fn.kids(a)[0])]
+            ok2 = any(fn.before(a, o) or fn.before(o, a) for o in others)
+            ctx.check(ok2, "HE.exception-safety", CB + "alloc_hazard_era#cache-fields-paired", "cache fields updated together", "last_era and last_hazard_era are not updated on the same path", fn.where(a), fn=fn)
     # slots
     guarded(ctx, "HE.slots", CB + "alloc_hazard_era", call("need_more_hes"), {"k": "bin", "expr_re": r"^\(result == nullptr\)$", "desc": "result == nullptr"}, True,
             label="need_more|null")
